@@ -83,6 +83,17 @@ function checkMap ({ a, resp, code, file, v, res }) {
     for (const k of Object.keys(n)) if (k[0] !== '$') w(n[k])
   })(a.inTree)
   res.notes.identifiers = idents
+  // 2b. the second copy of a reference (the operand handed to the hook) maps to the same original position as
+  // the copy left in the wrapped operation
+  for (const h of a.erasure.hooks) for (const c of h.copies || []) {
+    const gp = outPos(c.copy); const op = outPos(c.of)
+    if (tout.at(gp.line, gp.col, c.name.length) !== c.name || tout.at(op.line, op.col, c.name.length) !== c.name) continue
+    const s = SM.lookup(d, gp.line, gp.col); const so = SM.lookup(d, op.line, op.col)
+    if (!so || so.gl !== op.line || so.gc !== op.col) continue
+    idents++
+    if (!s || s.gl !== gp.line || s.gc !== gp.col) v('identifier-without-mapping', 'hook-operand-copy', `the copy of ${c.name} handed to the hook at content ${gp.line}:${gp.col} has no mapping of its own (the position resolves to ${s ? s.ol + ':' + s.oc : 'nothing'}, the reference is at ${so.ol}:${so.oc})`)
+    else if (s.ol !== so.ol || s.oc !== so.oc) v('identifier-maps-elsewhere', 'hook-operand-copy', `the copy of ${c.name} handed to the hook at content ${gp.line}:${gp.col} maps to ${s.ol}:${s.oc}, the reference is at ${so.ol}:${so.oc}`)
+  }
   // 3. every mapping generated inside a statement maps into the line span of that statement
   const hasHook = (n) => { let f = false; (function w (x) { if (f || x === null || typeof x !== 'object') return; if (Array.isArray(x)) { x.forEach(w); return } if (x.$hooked || x.$guarded) { f = true; return } for (const k of Object.keys(x)) if (k[0] !== '$') w(x[k]) })(n); return f }
   const S = stmts.map((s) => ({ instrumented: hasHook(s.node), gs: outPos(s.out), ge: outEnd(s.out), is: inPos(s.in).line, ie: tin.fromByte(s.in.end - 2 >= 0 ? s.in.end - 2 : 0).line, type: s.type, len: s.out.end - s.out.start })).sort((x, y) => x.len - y.len)
